@@ -791,6 +791,11 @@ def vector_family(tier):
     for space in rot_spaces:
         for keys in v3:
             cs.append(vector_case("rot", space, keys, deg=deg))
+    if tier != "thorough":
+        # quick tier: a few cases with a second batch axis / batch 3 for the operators that accept them
+        for space, keys in [("x2", VEC2[0]), ("x1t1", VEC2[3])]:
+            cs.append(vector_case("div", space, keys, batch=(2, 2), deg=2))
+        cs.append(vector_case("div", "x1t1", VEC2[1], batch=(3,), deg=2))
     if tier == "thorough":
         for space in ("x3", "x2z1", "x1y1z1"):
             for keys in v3:
@@ -872,6 +877,9 @@ def cases(tier):
     cs += scalar_family("x2", list(subsets(B2)))
     # ---- single scalar variable -----------------------------------------------------------------------
     cs += scalar_family("x1", list(subsets(basis(1, 3 if thorough else 2))))
+    if not thorough:
+        cs += scalar_family("x2", [[(1, 1)], B2], batch=(2, 2))
+        cs += scalar_family("x1", [[(2,)], [(1,), (2,)]], batch=(3,))
     # ---- vector + scalar variable: representative subsets ---------------------------------------------
     cs += scalar_family("x2t1", _repr_subsets(3, 2, extra_pairs=thorough) if thorough else _repr_subsets(3, 2, False)[:10]
                         + [[(1, 0, 1)], [(1, 0, 1), (2, 0, 0)], [(0, 1, 1), (0, 0, 1)], [(1, 1, 0), (0, 0, 2)]])
